@@ -14,10 +14,23 @@ def generator(pattern):
     return deco
 
 def search(pid, f):
+    tried = set()
     for (pat, fn) in GENERATORS:
         if pat.search(pid + ':' + f['full']):
+            tried.add(fn.__name__)
             w = fn(pid, f)
             if w: return w
+    # last resort: the generic twins of the property family (a failing obligation with no generator of its own)
+    if pid in ('C01', 'C02', 'C05', 'C06', 'C07', 'C08', 'C11', 'C12', 'C19', 'C15'):
+        for (name, fn) in (('gen_refmodel', gen_refmodel), ('gen_refmodel_policy', gen_refmodel_policy)):
+            if name not in tried:
+                w = fn(pid, f)
+                if w: return w
+    if pid in ('C09', 'C10', 'C12', 'C13', 'C18'):
+        for (name, fn) in (('gen_framing', gen_framing), ('gen_sock', gen_sock)):
+            if name not in tried:
+                w = fn(pid, f)
+                if w: return w
     return None
 
 def run_witness(w):
@@ -67,7 +80,7 @@ def run_witness(w):
         return {'violates': not out.startswith('ok '), 'output': out, 'required': w.get('required')}
     if kind == 'history':
         import refmodel
-        r = refmodel.run_history(_dec(w['ops']))
+        r = refmodel.run_history(_dec(w['ops']), tuple(w.get('config', ())))
         return {'violates': r is not None, 'mismatch': r, 'required': w.get('required')}
     if kind == 'conc':
         import subprocess
@@ -75,6 +88,13 @@ def run_witness(w):
         out = [l for l in r.stdout.split('\n') if l]
         bad = any(l.strip() == 'linearizable false' for l in out) or any('BLOCKED' in l for l in out)
         return {'output': out, 'violates': bad, 'required': w.get('required', 'the concurrent outcome equals one of the two sequential orders (the real code is its own oracle)')}
+    if kind == 'steps-lin':
+        import re
+        out = _steps(w['lines'])
+        d = {l.split(' ', 1)[0]: l.split(' ', 1)[1] for l in out if ' ' in l}
+        m = re.match(r't1=(\S*) t2=(\S*) final=(\S*)', d.get('concurrent', ''))
+        good = bool(m) and 'seq12' in d and ([m.group(1), m.group(2), m.group(3)] == d['seq12'].split(',') or [m.group(2), m.group(1), m.group(3)] == d['seq21'].split(','))
+        return {'output': out, 'violates': not good, 'required': w.get('required')}
     if kind == 'steps':
         out = _steps(w['lines'])
         bad = 'completes true' not in out
@@ -179,32 +199,38 @@ def _dec(o):
     return o
 
 @generator(r'server/(store\.|memc\.|handler\.|handle_request|check_if_expired|get_by_key|cache\.get|set\.safety|add_delta|flush\.safety|into_|storage_error|meta\.|record\.)|codec_dec/parse_(set|get|delete|append|inc|flush|header_only|not_supported)|kani/store_delete')
-def gen_refmodel(pid, f):
+def gen_refmodel(pid, f, config=()):
     import refmodel, os
     seed = int(os.environ.get('VERIF_SEED', '0') or 0)
+    def wit(h, r):
+        return {'kind': 'history', 'ops': _enc(h), 'config': list(config), 'what': r['why'], 'required': 'every step of the history agrees with the reference model of the property statements (tools/refmodel.py)',
+                'first_mismatch_step': r['step'], 'session_lines': r['lines'], 'observed': r['observed']}
     for h in refmodel.boundary_histories():
-        r = refmodel.run_history(h)
-        if r:
-            return {'kind': 'history', 'ops': _enc(h), 'what': r['why'], 'required': 'every step of the history agrees with the reference model of the property statements (tools/refmodel.py)',
-                    'first_mismatch_step': r['step'], 'session_lines': r['lines'], 'observed': r['observed']}
+        r = refmodel.run_history(h, config)
+        if r: return wit(h, r)
     import random
     rng = random.Random(seed)
     for _ in range(150):
         h = refmodel.random_history(rng)
-        r = refmodel.run_history(h)
-        if r:
-            return {'kind': 'history', 'ops': _enc(h), 'what': r['why'], 'required': 'every step of the history agrees with the reference model of the property statements (tools/refmodel.py)',
-                    'first_mismatch_step': r['step'], 'session_lines': r['lines'], 'observed': r['observed']}
+        r = refmodel.run_history(h, config)
+        if r: return wit(h, r)
     return None
 
+# the same histories with random eviction switched on and a memory limit that is never reached: nothing may change
+NO_PRESSURE = ('policy random 1099511627776',)
+@generator(r'server/policy\.')
+def gen_refmodel_policy(pid, f):
+    return gen_refmodel(pid, f, NO_PRESSURE)
+
 # C16: a command that does not return.  The session is run under a watchdog; not finishing is the witness.
-@generator(r'kani/store_remove_if|ownership\.|no_call_under_guard')
+@generator(r'server/timer\.')
 def gen_clock(pid, f):
     # BOUNDED: 2^23 ticks of the real SystemTimer (97 days of seconds)
     w = {'kind': 'clock', 'ticks': 1 << 23, 'required': 'after n calls of add_second the real SystemTimer reads n (n = 1 .. 2^23)',
          'what': 'the server clock does not count the seconds it was ticked (output: "bad <ticks> <timestamp read>")'}
     return w if run_witness(w)['violates'] else None
 
+@generator(r'kani/store_remove_if|ownership\.|no_call_under_guard')
 def gen_hang(pid, f):
     V = b'v' * 100
     scenarios = [
@@ -246,10 +272,13 @@ def sock_pipelines():
     P.append(('touch then noop', 1048576, [hdr(0x1c, key=1, extras=4, body=5) + b'\0\0\0\1k', noop]))
     P.append(('oversized then gets', 1024, [big, f_key(0, b'k'), noop]))
     P.append(('counters', 1048576, [f_delta(5, b'c', 1, 10, 0), f_delta(0x15, b'c', 5), f_delta(6, b'c', 100), f_key(0, b'c'), noop]))
+    two_mib = b'w' * (2 << 20)
+    P.append(('2 MiB item under a 4 MiB limit', 4 << 20, [f_set(b'L', two_mib), f_key(0x0c, b'L') , noop]))
+    P.append(('600-byte item under a 512-byte limit', 512, [f_set(b's', b'x' * 600), f_key(0, b's'), noop]))
     P.append(('setq x3 then get', 1048576, [f_set(b'a', b'1', op=0x11), f_set(b'b', b'2', op=0x11), f_set(b'c', b'3', op=0x11), f_key(0, b'b')]))
     return P
 
-@generator(r'server/(read_frame|skip_bytes|conn\.|client\.|handle\.safety|handle_frame|write)|codec_dec/(decode|parse_request|parse_header)')
+@generator(r'server/(read_frame|skip_bytes|conn\.|client\.|handle\.safety|handle_frame|write|server_config\.|tcp_server\.)|codec_dec/(decode|parse_request|parse_header)')
 def gen_sock(pid, f):
     for name, limit, frames in sock_pipelines():
         stream = b''.join(frames)
@@ -403,6 +432,45 @@ def gen_steps(pid, f, quick=True):
     gen_steps.last_count = len(dries) + len(runs)
     return None
 gen_steps.last_count = 0
+
+# C03 at step granularity (thorough tier / fallback): the concurrent outcome (results of both threads and the final
+# content) must equal one of the two sequential orders, for get / set / delete / flush on one key.  BOUNDED: the grid.
+# The known finding (CAS store on an ABSENT key racing another store) is left out, as in gen_conc_store.
+def gen_steps_lin(pid, f):
+    import re
+    ok, err = replaytool.build_steps_bin()
+    if not ok:
+        return None
+    from concurrent.futures import ThreadPoolExecutor
+    inits = {'absent': [], 'present': ['init set k 5 0 0'], 'present-expired': ['init set k 5 0 5', 'tick 10'], 'present-with-ttl': ['init set k 5 0 50', 'tick 10']}
+    t1s = ['get k', 'set k 1 0 0', 'set k 1 1 0', 'set k 1 0 7', 'delete k 0', 'delete k 1', 'flush 0', 'flush 5']
+    t2s = ['get k', 'set k 2 0 0', 'set k 2 1 0', 'set k 5 0 0', 'delete k 0', 'delete k 1', 'flush 0', 'flush 3']
+    jobs = []
+    for pol in (None, 100000):
+        for iname, init in inits.items():
+            for a in t1s:
+                if iname == 'absent' and a == 'set k 1 1 0': continue
+                pre = (['policy random %d' % pol] if pol else ['policy none']) + init
+                out = _steps(pre + ['t1 ' + a, 'park 0'])
+                n = ([int(l.split()[1]) for l in out if l.startswith('steps ')] or [0])[0]
+                for park in range(1, n + 1):
+                    for b in t2s:
+                        jobs.append((pol, iname, a, park, b, pre + ['t1 ' + a, 'park %d' % park, 't2 ' + b, 'final get k']))
+    def lin(out):
+        d = {l.split(' ', 1)[0]: l.split(' ', 1)[1] for l in out if ' ' in l}
+        m = re.match(r't1=(\S*) t2=(\S*) final=(\S*)', d.get('concurrent', ''))
+        if not m or 'seq12' not in d: return False
+        r1, r2, fin = m.groups()
+        return [r1, r2, fin] == d['seq12'].split(',') or [r2, r1, fin] == d['seq21'].split(',')
+    def run(j): return j, _steps(j[5])
+    gen_steps_lin.last_count = len(jobs)
+    with ThreadPoolExecutor(8) as ex:
+        for j, out in ex.map(run, jobs):
+            if not lin(out) and not lin(_steps(j[5])):
+                return {'kind': 'steps-lin', 'lines': j[5], 'required': 'the concurrent outcome equals one of the two sequential orders (the real code is its own oracle)',
+                        'what': 'policy %s, initial state %s: thread 1 `%s` parked before its step #%d while thread 2 runs `%s`: outcome matches neither sequential order' % (j[0], j[1], j[2], j[3], j[4])}
+    return None
+gen_steps_lin.last_count = 0
 
 # Bounded stand-ins registered per property in specs/properties.json (`bounded_twins`): for functions that no contract
 # within reach covers.  Labelled bounded in the evidence; never counted as proved.
